@@ -585,6 +585,11 @@ def rule_transient_state_resolved(ctx):
                 drops_hash = any(callee_name(d) == "delete_hash" and ast.unparse(d.func.value) == recv and d.lineno < c.lineno for d in calls_in(fi.node))
                 flag = c.args[1] if len(c.args) > 1 else kwarg_of(c, "deferred")
                 parks = flag is not None and not (isinstance(flag, ast.Constant) and flag.value is False)
+                if parks and not drops_hash:
+                    # parked exactly while something is unavailable: a constant True parks a step whose input became available during the
+                    # job (no later state change will wake it), so the build ends with a pending step that nothing blocks
+                    exact = isinstance(flag, ast.Call) and callee_name(flag) == "has_unavailable_dynamic_input" and ast.unparse(flag.func.value) == recv
+                    ctx.check(exact, fi.fq, f"{recv} is parked exactly while one of its dynamic inputs is unavailable", f"the deferred flag is `{ast.unparse(flag)}`: when the missing input came back while the job was running, the step stays deferred with every input available and is never dispatched again", f"deferred = {recv}.has_unavailable_dynamic_input()", where=ctx.where_of(fi, c))
                 ctx.check(drops_hash or parks, fi.fq, f"{recv}.set_state(PENDING) after a job that did not run the command changes eligibility", "the step goes back to PENDING with its stored hash and without the deferred flag: the next pop selects it again and derives the same job, so the build phase never ends", "hash deleted first" if drops_hash else "parked as deferred while a dynamic input is unavailable", where=ctx.where_of(fi, c))
     if n_back < 2:
         raise AnalysisError("executor: set_state(PENDING) sites not found")
@@ -740,7 +745,7 @@ RULES = [
     Rule("R-C10-5", "wake-ups after eligibility-changing events", rule_wakeups, min_instances=9),
     Rule("R-C10-6", "job_loop returns only after an empty poll", rule_loop_exit, min_instances=3),
     Rule("R-C10-7", "defer cap", rule_defer_cap, min_instances=5),
-    Rule("R-C10-9", "job handlers leave the transient states on every exit", rule_transient_state_resolved, min_instances=9),
+    Rule("R-C10-9", "job handlers leave the transient states on every exit", rule_transient_state_resolved, min_instances=10),
     Rule("R-C10-10", "recomputation pipelines run all stages and clear the flag last", rule_recompute_pipelines, min_instances=6),
     Rule("R-C10-11", "phase wiring: loop, finalisation, finished tasks", rule_phase_wiring, min_instances=5),
     Rule("R-C10-8", "'needed' is computed from attached consumers, targets and declared need", C11.rule_read_set, min_instances=10),
@@ -752,6 +757,7 @@ def _drop_trigger(name):
 
 
 MUTANTS = [
+    Mutant("validated-step-parked-unconditionally", "executor.py", in_function("Executor.validate_dynamic_job", replace_once("step.set_state(StepState.PENDING, step.has_unavailable_dynamic_input())", "step.set_state(StepState.PENDING, True)")), ("R-C10-9",)),
     Mutant("phase-without-job-loop", "builder.py", in_function("Builder.run_once", replace_once("        await self.job_loop()\n", "")), ("R-C10-11",)),
     Mutant("phase-without-finalize", "builder.py", in_function("Builder.run_once", replace_once("        await self.finalize()\n", "")), ("R-C10-11",)),
     Mutant("task-never-reports-back", "builder.py", in_function("Builder.start_task", replace_once("        task.add_done_callback(self._task_done)\n", "")), ("R-C10-11",)),
